@@ -231,6 +231,14 @@ func drawPacket(r *wire.Rng, c rawCfg, k candidates) packet {
 	}
 	p.mark = wire.Pick(r, k.marks)
 	p.connmark = wire.Pick(r, k.marks)
+	if r.Chance(1, 3) { // the plain case: unmarked new TCP through an ordinary interface
+		p.proto, p.ctstate, p.mark, p.connmark = "tcp", "NEW", 0, 0
+		if p.hook == "OUTPUT" {
+			p.outIf = "eth0"
+		} else {
+			p.inIf = "eth0"
+		}
+	}
 	return p
 }
 
